@@ -367,6 +367,19 @@ func checkC15(p *Prog, r *Report) {
 				}
 			}
 		}
+		mover := ""
+		for _, f := range reach.Order {
+			if pkgPathOf(f) == bankKeeperPath && f.Signature.Recv() != nil && isCoinMover(f.Name()) {
+				mover = FuncName(f) + " via " + reach.Chain(f)
+			}
+		}
+		for _, iv := range reach.Invokes {
+			if isCoinMover(iv.Method) && len(bankCapable(iv.Instr.Common().Value.Type())) > 0 {
+				mover = "invoke " + iv.Iface + "." + iv.Method + " in " + FuncName(iv.In)
+			}
+		}
+		r.Check(mover == "", kp("REACH", "ante:"+ctor+"#moves-no-coins"), "ante decorators of the module move no coins (only the SDK's DeductFeeDecorator does: the declared fee)", p.Pos(w.AntePos),
+			"no coin-moving bank function reachable", fmt.Sprintf("the ante decorator built by %s moves coins (%s): a custom-module transaction then changes balances or supply beyond its fee, even when its messages fail", ctor, mover))
 		r.Check(hit == "", key, "ante decorators of the module write no aol/did/pnft state", p.Pos(w.AntePos),
 			fmt.Sprintf("%d functions reachable from %s's decorator, none writes custom-module state", len(reach.Order), ctor),
 			fmt.Sprintf("the ante decorator built by %s writes %s: ante-handler writes are committed before the messages run and are kept when a later message fails, so a failed transaction leaves custom-module state behind", ctor, hit))
